@@ -198,3 +198,51 @@ PARENTS = {
     'group>roll': lambda r: ['group_by', 'mod:%d' % r.randint(2, 3), [['roll', r.randint(3, 8), r.randint(1, 8), None]]],
     'roll>group': lambda r: ['roll', r.randint(4, 10), r.randint(2, 10), [['group_by', 'mod:%d' % r.randint(2, 3), None]]],
 }
+
+
+def nested_consumer(x_node, items, inner_items, out, what, inner=None):
+    """A consumer that, while it is handed a result, runs ANOTHER, independent pipeline (own source, own subscription, own
+    store) to completion - built with the SAME operator object (a module-level `ROLLING = rs.data.roll(...)` used for both
+    stages).  The outer source is pushed, the inner one synchronous, so the two really nest; neither re-enters the other's
+    subscription.  Metamorphic oracle: the outer run and every inner run deliver what the operator object delivers when each
+    stream is processed alone.  x_node is used at the top level of a store section."""
+    x = copy.deepcopy(x_node)
+    x[-1] = inner if inner is not None else [['to_list']]
+    op = progs.build_node(x, path=(0,))
+    inner_items = list(inner_items)
+
+    def sync_source(observer, scheduler=None):
+        for v in inner_items:
+            observer.on_next(v)
+        observer.on_completed()
+
+    def alone(xs):
+        return subscribe(rx.from_(list(xs)).pipe(rs.state.with_memory_store([op])), Snap())
+    want_outer, want_inner = alone(items), alone(inner_items)
+    if want_outer.err is not None or want_inner.err is not None:
+        return                      # (a domain error of the plain runs: nothing to compare)
+    src = progs.Controlled()
+    got, inner_runs = Snap(), []
+
+    def consumer(v):
+        got.on_next(v)
+        if len(inner_runs) < 6:
+            inner_runs.append(subscribe(rx.create(sync_source).pipe(rs.state.with_memory_store([op])), Snap()))
+    try:
+        src.observable.pipe(rs.state.with_memory_store([op])).subscribe(on_next=consumer, on_error=got.on_error, on_completed=got.on_completed)
+        for v in items:
+            src.push(v)
+        src.complete()
+    except Exception as e:      # noqa: BLE001
+        if got.err is None:
+            got.err = e
+    out.observed['nested_runs_sharing_the_operator_object'] += len(inner_runs)
+    if got.err is not None or not got.done or norm(got.out) != norm(want_outer.out):
+        out.fail(what + ':differs-when-the-consumer-runs-another-pipeline-built-with-the-same-operator-object', error=repr(got.err), done=got.done,
+                 want=want_outer.out[:12], got=got.out[:12], items=list(items)[:40], inner_items=inner_items[:40])
+        return
+    for r in inner_runs:
+        if r.err is not None or not r.done or norm(r.out) != norm(want_inner.out):
+            out.fail(what + ':nested-run-with-the-same-operator-object-differs', error=repr(r.err), done=r.done, want=want_inner.out[:12], got=r.out[:12],
+                     items=list(items)[:40], inner_items=inner_items[:40])
+            return
